@@ -27,7 +27,7 @@ Print Assumptions C12_frame.
 Theorem C12_user_clean : forall o p n, o_init o = false -> o_fmt o = false -> o_vars o = false -> o_clean o = true ->
   p_found p = true -> p_loads p = true -> p_has_clean p = true -> (o_quiet o && o_debug o) = false ->
   write_kind o p n = WCacheOnly.
-Proof. intros o p n A B C D E F G H. unfold write_kind. rewrite A, B, C, D, E, F, G, H. reflexivity. Qed.
+Proof. exact user_clean_cache_only. Qed.
 Print Assumptions C12_user_clean.
 
 (* non-vacuity: /h/proj with EMPTY := "" and UP := ".." as named outputs, a literal "bin" and a glob match:
